@@ -280,7 +280,7 @@ C13_WIDE_SLICED = [20, 24, 28, 31, 32]
 for es, P, PT in ((2, "pxe2", "PxE2"), (1, "pxe1", "PxE1")):
     for N in range(2, 33):
         q = "quick" if N in C13_QUICK_N else "thorough"
-        cost = 120 if N <= 8 else 900 if N <= 16 else 3600
+        cost = 600 if N <= 8 else 1200 if N <= 16 else 3600
         for op, nm in ((0, "add"), (1, "sub"), (2, "mul")):
             if N > 16 and op < 2:
                 continue
@@ -289,9 +289,12 @@ for es, P, PT in ((2, "pxe2", "PxE2"), (1, "pxe1", "PxE1")):
         reg("C13", H("c13_%s_div_%d" % (P, N), "c13::%s::div" % P, gen=str(N), unwind=34, timeout=600, tier=q, stubs=[LLDIV], funcs=["%s<%d>: /" % (PT, N)], space_bits=2 * N,
                      bound="every pair of %d-bit patterns, modulo the softposit::lldiv contract (stubbed, quotient shared)" % N))
         reg("C13", H("c13_%s_round_%d" % (P, N), "c13::%s::round" % P, gen=str(N), unwind=34, timeout=300, tier=q, funcs=["%s<%d>::round" % (PT, N)], space_bits=N, bound="every %d-bit pattern" % N))
-        if P == "pxe2":
+        if P == "pxe2" and N <= 16:
             reg("C13", H("c13_%s_sqrt_%d" % (P, N), "c13::%s::sqrt" % P, gen=str(N), unwind=34, timeout=900 if N <= 12 else 3600, tier=q if N <= 12 else "thorough", funcs=["%s<%d>::sqrt" % (PT, N)], space_bits=N,
                          bound="every %d-bit pattern (integer root as a nondeterministic witness)" % N))
+        if P == "pxe2" and N > 16:
+            reg("C13", H("c13_%s_sqrt_f4_%d" % (P, N), "c13::%s::sqrt_fbits" % P, gen="%d, 4" % N, unwind=34, timeout=1800, tier="thorough", funcs=["%s<%d>::sqrt" % (PT, N)], space_bits=12,
+                         bound="every zero/NaR/negative %d-bit pattern and every positive one whose fraction has <= 4 significant bits; the rest of the domain is outside the claim (as for P32E2::sqrt)" % N))
         if N <= 16:
             for op, nm in ((0, "mul_add"), (1, "mul_sub"), (2, "sub_product")):
                 reg("C13", H("c13_%s_%s_%d" % (P, nm, N), "c13::%s::fma" % P, gen="%d, %d" % (N, op), unwind=40, timeout=cost * 2, tier=q if (N <= 8 and op == 0) or N <= 5 else "thorough",
